@@ -301,7 +301,7 @@ def decls(tier):
     for kind in ("enum", "flag"):
         for base in BASES:
             for L in range(1, n + 1):
-                pool = specs if L < (3 if tier == "quick" else 4) else (["auto", "=0", "=1", "=5", "=-1", "=PREV+1", "=PREV<<1", "=DUP", "=3"] if L == 3 else specs[:8])
+                pool = specs if L < (3 if tier == "quick" else 4) else (["auto", "=0", "=1", "=2", "=5", "=-1", "=PREV+1", "=PREV<<1", "=DUP", "=3"] if L == 3 else specs[:8])
                 for sp in itertools.product(pool, repeat=L):
                     yield (kind, base, sp)
 
